@@ -35,6 +35,16 @@ func main() {
 		r := ev.NewRun(id, ev.Tier(*tier))
 		chk(r)
 		os.Exit(r.Finish())
+	case "fresh":
+		// vcheck fresh <property> <index>: operation #index as the FIRST library call
+		// of this process (see props.Fresh); prints its result
+		f, ok := props.Fresh[os.Args[2]]
+		if !ok || len(os.Args) < 4 {
+			os.Exit(2)
+		}
+		i := 0
+		fmt.Sscanf(os.Args[3], "%d", &i)
+		fmt.Println(f(i))
 	case "replay":
 		os.Exit(props.Replay(os.Args[2]))
 	default:
